@@ -49,6 +49,7 @@ def gen_cases(tier, seed):
         cases.append({'kind': 'stop', 'moment': 'race', 'n': rng.choice([2, 3, 4]), 'items': rng.choice([1, 1, 2]), 'rounds': 5 if tier == 'quick' else 12, 'seed': rng.randrange(1 << 30)})
     cases.append({'kind': 'early-put', 'when': 'before-consumption'})
     cases.append({'kind': 'early-put', 'when': 'after-consumption'})
+    cases.append({'kind': 'early-put', 'when': 'two-suppliers'})
     for i in range(4 if tier == 'quick' else 60):
         cases.append({'kind': 'processes', 'm': rng.choice([1, 2]), 'n': rng.choice([2, 3]), 'items': rng.choice([5, 40]), 'rounds': 2, 'pkind': ['queue', 'simple', 'stoppable', 'queue'][i % 4],
                       'seed': rng.randrange(1 << 30)})
@@ -324,14 +325,16 @@ def run_stop(case):
             'sample': {'kind': 'stop', 'moment': moment, 'blocked_callers': case['n'], 'latency_ms': obs['max_stop_latency_ms']}}
 
 
-def _p_supplier(q, s, counts, rounds):
+def _p_supplier(q, s, counts, rounds, sgo_q=None):
     for r in range(rounds):
+        if r and sgo_q is not None:
+            sgo_q[r - 1].wait()  # the next round's items are put only after the consumers' renew (putting earlier is the early-put known finding)
         for i in range(counts[r][s]):
             q.put((r, s, i))
         q.put_end(wait_for_renew=True)
 
 
-def _p_consumer(q, c, rounds, out, renew_q, n, go_q=None):
+def _p_consumer(q, c, rounds, out, renew_q, n, go_q=None, sgo_q=None, m=0):
     for r in range(rounds):
         got = [x for x in q]
         out.put((r, c, got))
@@ -341,11 +344,10 @@ def _p_consumer(q, c, rounds, out, renew_q, n, go_q=None):
                 for _ in range(n - 1):
                     renew_q.get()
                 q.renew()
-                for _ in range(n - 1):
-                    go_q.put(r)
+                go_q[r].set()  # one event per round: everybody (consumers and suppliers) starts round r+1 after this renew
             else:
                 renew_q.put(1)
-                go_q.get()  # the next round starts after consumer 0 has renewed
+                go_q[r].wait()  # the next round starts after consumer 0 has renewed
     return True
 
 
@@ -368,9 +370,10 @@ def run_processes(case):
     counts = [[rng.randrange(0, case['items'] + 1) for _ in range(m)] for _ in range(rounds)]
     out = mm.Queue()
     renew_q = mm.Queue()
-    go_q = mm.Queue()
-    procs = [mm.Process(target=_p_supplier, args=(q, s, counts, rounds)) for s in range(m)]
-    procs += [mm.Process(target=_p_consumer, args=(q, c, rounds, out, renew_q, n, go_q)) for c in range(n)]
+    go_q = [mm.Event() for _ in range(rounds)]
+    sgo_q = go_q
+    procs = [mm.Process(target=_p_supplier, args=(q, s, counts, rounds, sgo_q)) for s in range(m)]
+    procs += [mm.Process(target=_p_consumer, args=(q, c, rounds, out, renew_q, n, go_q, sgo_q, m)) for c in range(n)]
     for p in procs:
         p.start()
     got = []
@@ -419,8 +422,25 @@ def run_early_put(case):
 
     viol = []
     obs = {'runs': 1, 'early_put_runs': 1, 'rounds': 0, 'items_delivered': 0}
-    q = MQ.IterableQueue(_queue.Queue(), num_suppliers=1)
     when = case['when']
+    if when == 'two-suppliers':
+        # supplier A ends its round and puts an item for the next round while supplier B is still in the current one
+        q = MQ.IterableQueue(_queue.Queue(), num_suppliers=2)
+        q.put(('r0', 'a'))
+        q.put_end()
+        q.put(('r1', 'early-a'))
+        q.put(('r0', 'b'))
+        q.put_end()
+        got0 = watch.run_bounded(lambda: list(q), 10, 'first round')
+        obs['rounds'] = 1
+        obs['items_delivered'] = len(got0)
+        if sorted(got0) != [('r0', 'a'), ('r0', 'b')]:
+            leaked = [x for x in got0 if x[0] != 'r0']
+            mech = 'iterq/early-put-for-next-round-delivered-in-current-round' if leaked == [('r1', 'early-a')] and sorted(x for x in got0 if x[0] == 'r0') == [('r0', 'a'), ('r0', 'b')] else 'iterq/item-from-another-round'
+            viol.append({'mech': mech, 'msg': f'two suppliers; A put an item for the next round after its put_end (allowed by the docstring of put_end: "not accessible ... until the consumer '
+                         f'has called renew") while B was still in the current round: the round delivered {got0!r}'})
+        return {'violations': viol, 'obs': obs, 'nontrivial': True, 'sig': repr(('early-put', when)), 'sample': {'kind': 'early-put', 'when': when, 'round0': repr(got0)}}
+    q = MQ.IterableQueue(_queue.Queue(), num_suppliers=1)
     q.put(('r0', 0))
     q.put_end()
     if when == 'before-consumption':
